@@ -1,4 +1,4 @@
-(* M6: MiniGo -- the core pointer fragment of C01/C02/C20: pointer locals, parameters, one pointer result,
+(* M6: MiniGo -- the core pointer fragment of C01/C02/C09/C20: pointer locals, parameters, one pointer result,
    package-level pointer variables, nil, allocation, if / for with conditions built from opaque tests, nil
    comparisons, dereferencing tests, negation and short-circuit && / ||, direct calls (methods with pointer
    receivers and switch statements are spellings of these forms, chosen by the printer of the correspondence).
@@ -40,14 +40,21 @@ Inductive stmt :=
   | SDeref (d : dsite) (x : var)                         (* _ = x.V   at source position d *)
   | SIf (c : cond) (s1 s2 : stmt)
   | SWhile (c : cond) (body : stmt)                      (* for c { body } *)
-  | SReturn (a : atom_e).
+  | SReturn (a : atom_e)
+  (* interfaces (C09): x = &S_j{} converted to interface I_k;  [x =] xi.M_m(args) on an interface value, which
+     dereferences xi at source position d *)
+  | SConv (x : var) (k j : nat)
+  | SCallI (cs : nat) (d : dsite) (x : option var) (xi : var) (k m : nat) (args : list atom_e).
 
 Record func := { f_nparams : nat; f_body : stmt }.
 (* function f is nth f of p_funcs, function 0 is the entry point; p_ginit k tells whether package-level
-   variable k is declared with an allocation (true) or left nil (false) *)
-Record program := { p_funcs : list func; p_ginit : list bool }.
+   variable k is declared with an allocation (true) or left nil (false);
+   p_impls j lists, per method index, the function implementing it for the concrete type S_j (its parameter 0 is
+   the receiver) *)
+Record program := { p_funcs : list func; p_ginit : list bool; p_impls : list (list fname) }.
 
-Inductive value := VNil | VPtr.
+(* nil, or a valid pointer; a pointer stored in an interface value remembers the interface and the concrete type *)
+Inductive value := VNil | VPtr (dyn : option (nat * nat)).
 Definition store := list (var * value).
 
 Fixpoint sget (s : store) (x : var) : value :=            (* an unassigned pointer variable is nil *)
@@ -58,7 +65,7 @@ Definition globals_of (s : store) : store := filter (fun yv => is_glob (fst yv))
 Definition locals_of (s : store) : store := filter (fun yv => negb (is_glob (fst yv))) s.
 
 Definition eval_atom (s : store) (a : atom_e) : value :=
-  match a with ANil => VNil | ANew => VPtr | AVar x => sget s x end.
+  match a with ANil => VNil | ANew => VPtr None | AVar x => sget s x end.
 
 Inductive outcome :=
   | ONormal (s : store) (oracle : list bool)
@@ -74,8 +81,8 @@ Definition ask (oracle : list bool) : bool * list bool :=
 Fixpoint eval_cond (s : store) (c : cond) (oracle : list bool) : cres :=
   match c with
   | COpaque => let '(b, o) := ask oracle in CVal b o
-  | CNonNil x => CVal (match sget s x with VPtr => true | VNil => false end) oracle
-  | CDeref d x => match sget s x with VPtr => let '(b, o) := ask oracle in CVal b o | VNil => CPanic d end
+  | CNonNil x => CVal (match sget s x with VPtr _ => true | VNil => false end) oracle
+  | CDeref d x => match sget s x with VPtr _ => let '(b, o) := ask oracle in CVal b o | VNil => CPanic d end
   | CNot c1 => match eval_cond s c1 oracle with CVal b o => CVal (negb b) o | r => r end
   | CAnd c1 c2 => match eval_cond s c1 oracle with CVal true o => eval_cond s c2 o | r => r end
   | COr c1 c2 => match eval_cond s c1 oracle with CVal false o => eval_cond s c2 o | r => r end
@@ -87,7 +94,7 @@ Fixpoint bind_params (i : nat) (vs : list value) : store :=
 Fixpoint init_globals (k : nat) (gi : list bool) : store :=
   match gi with
   | [] => []
-  | b :: gi' => (if b then [(VG k, VPtr)] else []) ++ init_globals (S k) gi'
+  | b :: gi' => (if b then [(VG k, VPtr None)] else []) ++ init_globals (S k) gi'
   end.
 
 Section Exec.
@@ -118,7 +125,7 @@ Section Exec.
               | r => r
               end
           end
-      | SDeref d x => match sget s x with VPtr => ONormal s oracle | VNil => OPanic d end
+      | SDeref d x => match sget s x with VPtr _ => ONormal s oracle | VNil => OPanic d end
       | SIf c s1 s2 =>
           match eval_cond s c oracle with
           | CPanic d => OPanic d
@@ -136,6 +143,30 @@ Section Exec.
             else ONormal s o'
           end
       | SReturn a => OReturn (eval_atom s a) s oracle
+      | SConv x k j => ONormal (sset s x (VPtr (Some (k, j)))) oracle
+      | SCallI _ d x xi k m args =>
+          match sget s xi with
+          | VNil => OPanic d
+          | VPtr None => OOutOfFuel          (* ill-typed: not an interface value *)
+          | VPtr (Some (k', j)) =>
+              match (if Nat.eqb k k' then nth_error (nth j (p_impls prog) []) m else None) with
+              | None => OOutOfFuel           (* ill-typed *)
+              | Some f =>
+                  match nth_error (p_funcs prog) f with
+                  | None => OOutOfFuel
+                  | Some fd =>
+                      let after (s' : store) (v : value) :=
+                        let s1 := globals_of s' ++ locals_of s in
+                        match x with Some y => sset s1 y v | None => s1 end in
+                      match exec fuel' (f_body fd)
+                                 (bind_params 0 (VPtr None :: map (eval_atom s) args) ++ globals_of s) oracle with
+                      | ONormal s' o' => ONormal (after s' VNil) o'
+                      | OReturn v s' o' => ONormal (after s' v) o'
+                      | r => r
+                      end
+                  end
+              end
+          end
       end
     end.
 
